@@ -3,16 +3,16 @@ from . import generic
 
 SPEC = {
     "tag": "cond", "src": "h_cond.c",
-    "window": ["BQ_BEFORE_SWITCH", "BQ_CB_BEFORE_ENQ", "BQ_CB_AFTER_ENQ", "BQ_CB_AFTER_UNLOCK", "WAKEANY_AFTER_DEQ", "COND_WAIT_RESUMED",
+    "window": ["SQ_ENQ_LOCKED", "SQ_DEQ_LOCKED", "SQ_DEQ_LOCKED", "BQ_BEFORE_SWITCH", "BQ_CB_BEFORE_ENQ", "BQ_CB_AFTER_ENQ", "BQ_CB_AFTER_UNLOCK", "WAKEANY_AFTER_DEQ", "COND_WAIT_RESUMED",
                "MTX_UNLOCK_AFTER_DEC", "MTX_CLEAR_BIT", "WAKE1_AFTER_DEQ", "MTX_LOCK_AFTER_SEAT"],
     "ampl": ["BQ_BEFORE_POP", "WAKEANY_AFTER_PUSH", "WAKE1_AFTER_PUSH", "YIELD_CB_AFTER_PUT", "FIN_BEFORE_POP"],
     "required": ["WAKEANY_AFTER_DEQ", "WAKEANY_EMPTY", "COND_WAIT_RESUMED", "SCHED_STEAL_OK", "MTX_LOCK_BLOCKS"],
     "nontrivial_ids": ["COND_WAIT_RESUMED"],
     "n_quick": 150, "n_thorough": 3000,
     "variants": {"h0": 55, "h2": 35, "asan": 10},
-    "rule": ("each evaluation is one process running `progs` programs drawn from four patterns (bounded buffer with "
+    "rule": ("each evaluation is one process running `progs` programs drawn from five patterns (bounded buffer with "
              "unique item ids, per-thread-condition turnstile, broadcast gate re-armed for many rounds, ping-pong) "
-             "whose completion and final counters are determinate only if no wake-up is lost; on every wait return "
+             "and token release: S signalers do lock; publish; unlock; signal at the same moment against W parked waiters) whose completion and final counters are determinate only if no wake-up is lost; on every wait return "
              "the harness checks the holder witness and that a signal/broadcast was issued after the wait began. "
              "Non-trivial = at least one waiter actually blocked and was resumed; distinct = distinct (set of hook "
              "ids that fired, worker count, profile kind, pattern)."),
@@ -20,7 +20,7 @@ SPEC = {
 
 
 def args(r, tier, v, nw):
-    pat = r.choice([0, 0, 1, 2, 3, 4])
+    pat = r.choice([0, 0, 1, 2, 3, 4, 5, 5])
     progs = 5 if tier == "quick" else 10
     return ["progs=%d" % progs, "pattern=%d" % pat], "p%d" % pat
 
